@@ -6,8 +6,15 @@ CHECK = {'rule': 'rapid-generated concurrent programs on one fresh memfs: 2..8 g
          'generated harness-side delays, GOMAXPROCS in {1,2,4,16} and a generated plan (pass / Gosched / sleep / spin, every n-th visit) for the '
          'three verif yield points inside memfs. Non-trivial: >=2 goroutines, and a successful creation inside a shared directory whose op '
          'interval (global tick counter) overlaps a ReadDir of that directory or a successful Remove/RemoveAll inside it by another goroutine. '
+         'Kind handles: 150..600 rounds per case on fresh directories; a holder opens a Reader or Writer on d/f, releases 1..3 contenders '
+         '(WriteFile / Writer / ReadFile / Reader / CopyFile / Copy / CopyDirectory / Lstat / ReadDir on d/f or d), spins a delay swept over the rounds '
+         'and makes a second call (WriteFile / Writer incl. the stream copy f->g / MkdirAll / CopyFile / ReadDir in d, WriteFile in another directory) '
+         'with the handle open; 20 s watchdog per round; values of f, g and of every copy judged afterwards. Non-trivial there: a round in which '
+         'the second call was made while a contender was inside its call. '
          'Distinct = distinct case JSON (FNV-64).',
- 'assumptions': ['handle discipline holds by construction: a goroutine holds at most one stream handle, does only Write/Read/Close while holding it',
+ 'assumptions': ['in the generated programs (kind program) a goroutine holds at most one stream handle and does only Write/Read/Close while holding it; '
+                 'the kind handles covers the holder of ONE open handle that makes one further call on another path (what a stream copy inside one '
+                 'filespace does); a goroutine that calls an operation on the very file it holds open is not generated (that waits for itself)',
                  'shared nodes are never removed, private nodes are touched only by their owner (the statement speaks of distinct paths)',
                  'an operation that succeeds under every sequential order of the concurrent operations (WriteFile/Writer on a name only ever '
                  'written as a file, MkdirAll on a name only ever made a directory, any op on a private path) must succeed; mixed-kind races accept '
@@ -17,16 +24,21 @@ CHECK = {'rule': 'rapid-generated concurrent programs on one fresh memfs: 2..8 g
                  'plain stress)'],
  'essential_labels': {'all': ['burst-same-name-files', 'burst-same-name-dirs', 'burst-same-name-mixed', 'overlap-create-list',
                               'overlap-create-remove', 'overlap-read-write', 'overlap-write-write', 'op-Ws', 'op-Rs', 'op-Rp', 'op-Cd',
-                              'procs=1', 'procs=16', 'yield-plan', 'listrace:listed-before-and-after-the-change']},
+                              'procs=1', 'procs=16', 'yield-plan', 'listrace:listed-before-and-after-the-change',
+                              'handles:second-call-while-a-contender-is-inside-its-call', 'handles:contender-writes-the-held-file',
+                              'handles:contender-copies-the-held-file-into-the-same-directory', 'handles:hold-reader', 'handles:hold-writer']},
  'tiers': {'quick': [{'test': '^TestProp$', 'checks': 600, 'shards': 8, 'timeout': 240},
-                     {'test': '^TestPropListRace$', 'checks': 40, 'shards': 2, 'timeout': 240, 'seed_offset': 300}],
+                     {'test': '^TestPropListRace$', 'checks': 40, 'shards': 2, 'timeout': 240, 'seed_offset': 300},
+                     {'test': '^TestPropHandles$', 'checks': 40, 'shards': 2, 'timeout': 240, 'seed_offset': 500}],
            'thorough': [{'test': '^TestProp$', 'checks': 10000, 'shards': 16, 'timeout': 3000},
-                        {'test': '^TestPropListRace$', 'checks': 600, 'shards': 8, 'timeout': 3000, 'seed_offset': 300}]}}
+                        {'test': '^TestPropListRace$', 'checks': 600, 'shards': 8, 'timeout': 3000, 'seed_offset': 300},
+                        {'test': '^TestPropHandles$', 'checks': 600, 'shards': 8, 'timeout': 3000, 'seed_offset': 500}]}}
 
 TEXT = {'technique': 'concurrent property testing (rapid): generated multi-goroutine programs over shared and private paths with self-describing '
               'values, same-name creation bursts behind spin barriers, per-owner exact models, must-contain listings from completion flags, '
               'schedule knobs (GOMAXPROCS, delays, verif yield points), 30 s progress watchdog; listings racing with the LAST change of a fresh directory '
-              '(hundreds of rounds per case) judged on the settled listing',
+              '(hundreds of rounds per case) judged on the settled listing; a holder of an open stream handle making a second call while others write or copy '
+              'the held file (swept delay, 20 s watchdog per round)',
  'level_text': 'Exploration of schedules: thousands of generated concurrent programs run against one memfs under GOMAXPROCS 1/2/4/16; the '
                'check-then-create windows inside memfs are widened by generated yields/sleeps at three verif hook points, every other '
                'interleaving is whatever the Go scheduler produced. Passing means no inconsistency was observed on the sample.',
